@@ -9,11 +9,11 @@ CLAIMS = {
  "C01": ("proof", "Theorem C01.accepted over the Lean model: every instruction list the (abstract, all-choices) generator can emit in safe mode is accepted by the reference stack machine, for all protocols/choices/ranges; tied to the code by S1 (exhaustive probe of can_emit/process_stack_ops/cleanup_for_stop on small states), S2 (every step of traced real runs replayed through the model) and the oracle (the same executable Spec evaluated on real outputs, both entropy modes).", "§6 C01", "Lean theorem + S1/S2 correspondence + oracle"),
  "C02": ("proof", "Theorem C02.memo_ok: no memo violation (undefined GET, re-defined PUT, PUT on MARK/empty) in any safe-mode run of the model, memo keys dense; S1 at memo sizes 0,1,2,255,256,257; S2 incl. 3000-4000-opcode traces; oracle.", "§6 C02", "Lean theorem + S1/S2 correspondence + oracle"),
  "C03": ("proof", "Theorem C03.typed_ok: no operand-kind violation in any safe-mode run of the model (corollary of the simulation theorem C17); S1, S2, oracle with the typed family of the reference machine.", "§6 C03", "Lean theorem + S1/S2 correspondence + oracle"),
- "C04": ("proof", "Lexer/encoder theorems (C04.*) plus the oracle: Spec.wellFormed (complete decode under the pickletools table, argument domains, single final STOP) evaluated on outputs of all mutator subsets incl. unsafe.", "§6 C04", "Lean theorems + oracle on real outputs"),
- "C05": ("proof", "Table theorems (generated tables vs. pickletools' protocol column, re-proved whenever /repo's tables change) and C05.* origin analysis; oracle: opcode histogram, header, 7-bit check on real outputs.", "§6 C05", "Lean theorems over translated tables + oracle"),
+ "C04": ("proof", "C04.generated_bytes_well_formed: for every protocol <= 5, every configuration (all mutators, any rate, unsafe mutations and type confusion included), every lawful entropy source, the bytes the exact generator model returns satisfy Spec.wellFormed (complete decode under the pickletools table, arguments in their prescribed encoding and domain, single final STOP); built on the lexer/encoder round trip C04.lex_encode; hypotheses FloatOK/ModsOK checked on the real data on every run; tied by S3 (model = generate_from_arbitrary byte for byte), S2 and the oracle (the same Spec.wellFormed on real outputs of all mutator subsets incl. unsafe, both entropy modes).", "§6 C04, §14", "Lean end-to-end theorem + S3 exact correspondence + oracle on real outputs"),
+ "C05": ("proof", "Table theorems (generated tables vs. pickletools' protocol column, re-proved whenever /repo's tables change), C05.ops_in_proto / header_ok for every run, C05.protocol0_seven_bit (every byte of a protocol-0 output of the exact generator is below 0x80, any safe mutators) and EndToEnd.bytes_ok (the decoded bytes use only opcodes of the protocol with the right header); tied by S1/S2/S3; oracle: opcode histogram, header, 7-bit check on real outputs, protocols in ascending and descending order inside one process.", "§6 C05, §14", "Lean theorems over translated tables and the exact generator + S1/S2/S3 + oracle"),
  "C06": ("proof", "C06.* theorems on the header/back-patch model; oracle re-derives the FRAME length from the final bytes for every configuration incl. unsafe.", "§6 C06", "Lean theorem + oracle"),
  "C10": ("proof", "C10.optin: no EXT*/buffer instruction unless enabled, from canEmit, the int-like and type-confusion replacement sets, header and tail; S1 for the guards; oracle over the four flag combinations incl. unsafe.", "§6 C10", "Lean theorem + S1 + oracle"),
- "C11": ("proof", "C11.counts: bounds on T, one instruction per body step, tail <= 2T+1; S2 compares target/body/tail of real runs with the model; oracle checks the decoded length bounds.", "§6 C11", "Lean theorem + S2 + oracle"),
+ "C11": ("proof", "C11.exact_counts / C11.decoded_counts for every configuration of the exact generator: min <= T (< max, or = min when max <= min), exactly one instruction per iteration (bodyLen = T: candidate list never empty, SHORT_* length guards dead because payloads stay <= 71 bytes through every mutator, GET always finds key 0), tail <= 2T+1, decoded length between min+1 and 3*max(min,max)+4; C11.counts for abstract runs; S2 compares target/body/tail of real runs with the model, S3 ties the exact model byte for byte; oracle checks the decoded length bounds.", "§6 C11, §14", "Lean theorems + S2/S3 correspondence + oracle"),
  "C17": ("proof", "C17.step_sim / run_sim: every guarded step of the simulated VM is accepted by the reference machine and preserves the kind-compatibility relation; S1 (complete to depth) and S2 (every step of real runs) tie model to code.", "§6 C17", "Lean refinement theorem + S1/S2 correspondence"),
 }
 CLAIMS.update({
